@@ -11,9 +11,12 @@ DIGITS = frozenset(b"0123456789")
 NOT_A_REJECTION = {"BF_full_crypt": "bcrypt self-test outcome (digest comparison, not decidable abstractly)"}
 # methods left out of the composition: their generated round count is randomised (digit sets of varying length),
 # so neither acceptance of the numeric field nor the positional echo is decidable from byte sets
-SKIP_METHODS = {"sunmd5": "randomised rounds field", "sha1crypt": "randomised iterations field"}
+SKIP_METHODS = {}
+# for these the digit sets of the randomised numeric field are replaced by one concrete representative (smallest digits);
+# the salt part stays fully abstract, so acceptance of every generated *salt* is still decided
+CONCRETISE_DIGITS = {"sunmd5", "sha1crypt"}
 # methods whose generated numeric field is randomised (digit sets, variable length): positional echo is not decidable
-ECHO_UNDECIDED = {"sha1crypt", "sunmd5"}
+ECHO_UNDECIDED = set()
 
 
 def patterns(g, tier):
@@ -58,6 +61,14 @@ def build_cells(m, g, tier):
         if tier == "quick" and len(keep) > 14:
             step = len(keep) / 14.0
             keep = [keep[int(i * step)] for i in range(14)] + [keep[-1]]
+        if method in CONCRETISE_DIGITS:
+            seen_k, keep2 = set(), []
+            for key, src in keep:
+                k2 = tuple(frozenset([min(x)]) if (len(x) > 1 and x <= DIGITS) else x for x in key)
+                if k2 not in seen_k:
+                    seen_k.add(k2)
+                    keep2.append((k2, src))
+            keep = keep2
         for i, (key, src) in enumerate(keep):
             cid = "X%s#%d" % (method, i)
             c = K.crypt_cell(cid, entry, b"", setting_bytes=b"", headsets=list(key), size=(32768, 32768), align=(0, 0))
